@@ -226,6 +226,13 @@ func (sc *Scope) trIdent(name string) (Term, types.Type) {
 			return v.T, v.Typ
 		}
 	}
+	if sc.frame != nil && (name == "rangeexpr" || strings.HasPrefix(name, "rangeexpr#")) {
+		// rangeexpr#k: the slice the k-th `for ... range <slice>` loop of the function iterates over
+		if t, typ, ok := sc.frame.rangeExpr(name); ok {
+			return t, typ
+		}
+		sfail("%s: no such range-over-slice loop (or its operand is not evaluated yet)", name)
+	}
 	if sc.frame != nil && !sc.inOld {
 		if t, typ, ok := sc.frame.localByName(sc.st, name); ok {
 			return t, typ
@@ -892,6 +899,36 @@ func (sc *Scope) trCall(x ECall) (Term, types.Type) {
 			return IfVal(a), tInt
 		}
 		return a, tInt
+	case "boundmethod":
+		// boundmethod(fn, "(*T).M", recv): fn is the method value recv.M
+		a, _ := sc.Tr(x.Args[0])
+		lit, ok := x.Args[1].(EStr)
+		if !ok || len(x.Args) != 3 {
+			sfail("boundmethod(fn, \"(*T).M\", recv)")
+		}
+		var m *ssa.Function
+		if sc.pkg != nil {
+			m = sc.vc.p.funcs[sc.pkg.Path()+"::"+lit.Val]
+		}
+		if m == nil {
+			sfail("boundmethod: no method %s", lit.Val)
+		}
+		obj, _ := m.Object().(*types.Func)
+		if obj == nil {
+			sfail("boundmethod: %s is not a declared method", lit.Val)
+		}
+		rcv, _ := sc.Tr(x.Args[2])
+		return And(Eq(App(SInt, "fn_code", a), IntLit(int64(sc.vc.boundTag(obj.FullName())))), Eq(App(SInt, "fn_recv", a), rcv)), tBool
+	case "base":
+		// base(x): the allocation (array / object) the reference behind x lies in; distinct bases never overlap
+		a, _ := sc.Tr(x.Args[0])
+		switch a.Sort {
+		case SSlice:
+			return Base(SlArr(a)), tInt
+		case SIface:
+			return Base(IfVal(a)), tInt
+		}
+		return Base(a), tInt
 	case "iface":
 		// iface(type(T), x): interface value with dynamic type T and payload x
 		tt := x.Args[0].(ETypeTag)
